@@ -1,16 +1,17 @@
 ------------------------------ MODULE WalkDfs ------------------------------
 (* C11 B layer, part 1: the depth-first walk of verifier/walk.go as a recursive operator.
 
-   DfsCoded: continueWalking as coded -
+   DfsPreFix: continueWalking as it was coded up to /repo commit 8c7a49f -
      emit when the last edge is a root; stop when the last edge has no issuer; stop when
      len(soFar) >= maxIntermediateCount; iterate current.parentsBySubjectAndKey, i.e. only
      edges with a recorded issuer, grouped by issuer node; skip a group whose ISSUER node is
-     already in the chain (the coded no-revisit test looks at the target node, not at the
-     edge's own subject); canAddToChain (CA flag for non-roots, MaxPathLen against
-     len(chain)-1, also for roots).
-   DfsFixed: the same with the proposed fix (proposed_fixes/C11-revisit-after-self-signed.diff):
-     additionally stop when the CURRENT node - the (subject, key) of every candidate edge - is
-     already in the chain.
+     already in the chain (that no-revisit test looks at the target node, not at the edge's
+     own subject); canAddToChain (CA flag for non-roots, MaxPathLen against len(chain)-1, also
+     for roots).  TLC predicted from this model exactly the defect the real code then showed
+     (known finding C11-revisit-after-self-signed).
+   DfsCoded: the walk as coded since the fix (/repo commit d112422, = proposed_fixes/
+     C11-revisit-after-self-signed.diff): additionally stop when the CURRENT node - the
+     (subject, key) of every candidate edge - is already in the chain.
    WalkGen.tla evaluates both against the A layer of Walk.tla on every generated case.        *)
 EXTENDS Walk
 
@@ -27,10 +28,10 @@ Dfs(E, p, fixed) ==
      ELSE UNION {Dfs(E, Append(p, e), fixed) :
                    e \in {x \in E : /\ x.child = cur
                                     /\ x.issuer # NoNode            \* only such edges are in a parents map
-                                    /\ x.issuer \notin Childs(p)    \* coded: test on the target node
+                                    /\ x.issuer \notin Childs(p)    \* test on the target node
                                     /\ CanAdd(x, p)}}
 
-DfsCoded(E, start) == {IdsOf(p) : p \in Dfs(E, <<start>>, FALSE)}
-DfsFixed(E, start) == {IdsOf(p) : p \in Dfs(E, <<start>>, TRUE)}
+DfsPreFix(E, start) == {IdsOf(p) : p \in Dfs(E, <<start>>, FALSE)}
+DfsCoded(E, start)  == {IdsOf(p) : p \in Dfs(E, <<start>>, TRUE)}
 
 =============================================================================
